@@ -500,6 +500,68 @@ func checkC10Tables(c *Ctx, r *Report) {
 		}
 		r.add("C10.c", "fieldflow", fi.Key+":table", "IsValidRouteHttpVerb is a lookup in routeSupportedHttpVerbs", []string{fi.Key}, []string{w.pos(fi.Decl.Pos())}, viol)
 	}
+	// membership is decided on the value as written: whatever is accepted is handed to the
+	// generators verbatim (switch arms, `.Methods("{{{HttpVerb}}}")`, ToUpperCamel), so a
+	// test on a normalised copy accepts spellings the generators do not know
+	for _, fnk := range []string{"definitions.IsValidRouteHttpVerb", "definitions.IsValidHttpVerb", "definitions.IsValidHttpStatusCode"} {
+		fi := need(c, r, "C10.c", fnk)
+		if fi == nil {
+			continue
+		}
+		viol := ""
+		var sites []string
+		n := 0
+		allInstrs(fi.SSA, false, func(_ *ssa.Function, _ *ssa.BasicBlock, _ int, ins ssa.Instruction) {
+			lk, ok := ins.(*ssa.Lookup)
+			if !ok {
+				return
+			}
+			n++
+			sites = append(sites, w.pos(lk.Pos()))
+			if len(fi.SSA.Params) != 1 || stripTrivial(lk.Index) != ssa.Value(fi.SSA.Params[0]) {
+				viol = fmt.Sprintf("%s: %s looks up a transformed copy of its argument (%s): spellings that differ from the table's are accepted by validation but reach the spec/routes generators unchanged, where no arm or method exists for them", w.pos(lk.Pos()), fnk, sliceOf(lk.Index))
+			}
+		})
+		if n != 1 {
+			viol = fmt.Sprintf("expected one table lookup in %s, found %d", fnk, n)
+		}
+		r.add("C10.c", "fieldflow", fnk+":exact-membership", fnk+" tests the value exactly as it will be consumed", []string{fnk}, sites, viol)
+	}
+	// uniqueness of parameter references is keyed by the referenced parameter (the annotation's value)
+	const vuv = "(*core/validators.CommonValidator).validateUniqueValue"
+	if fi := need(c, r, "C10.d", vuv); fi != nil {
+		viol := ""
+		var sites []string
+		n := 0
+		check := func(k ssa.Value, pos token.Pos) {
+			n++
+			sites = append(sites, w.pos(pos))
+			a := sliceOf(k)
+			onlyValue := len(a.Calls) == 0 && len(a.Consts) == 0
+			for f := range a.Fields {
+				if f.Name() != "Value" {
+					onlyValue = false
+				}
+			}
+			if !a.hasFieldNamed("Value") || !onlyValue {
+				viol = fmt.Sprintf("%s: the `each parameter is referenced by one annotation` bookkeeping is keyed by something other than the annotation's value (the referenced parameter): %s - two annotations binding the same parameter under different aliases are accepted, and two parameters sharing an alias are rejected", w.pos(pos), a)
+			}
+		}
+		allInstrs(fi.SSA, false, func(_ *ssa.Function, _ *ssa.BasicBlock, _ int, ins ssa.Instruction) {
+			switch x := ins.(type) {
+			case *ssa.Lookup:
+				if _, isMap := x.X.Type().Underlying().(*types.Map); isMap {
+					check(x.Index, x.Pos())
+				}
+			case *ssa.MapUpdate:
+				check(x.Key, x.Pos())
+			}
+		})
+		if n < 2 {
+			viol = fmt.Sprintf("expected a lookup and an update of the uniqueness table in %s, found %d", vuv, n)
+		}
+		r.add("C10.d", "fieldflow", vuv+":keyed-by-referenced-parameter", "a parameter may be referenced by at most one parameter annotation: the table is keyed by the annotation value", []string{vuv}, sites, viol)
+	}
 }
 
 func checkC10Linking(c *Ctx, r *Report) {
